@@ -54,10 +54,10 @@ def focus_spec():
 
 def focus_items(tier, kinds, rules=None):
     """rule-focused slice F (DESIGN §5): for the fixture of each rule X, one layout deviation on the lines X itself reports on
-    (quick: the first reported line; thorough: the first two, +-1 line), X enabled if it is disabled by default"""
+    (quick: the first reported line; thorough: the first two), X enabled if it is disabled by default"""
     from .. import corpus
 
-    maxl, pad = (1, 0) if tier == "quick" else (2, 1)
+    maxl, pad = (1, 0) if tier == "quick" else (2, 0)
     have = set(corpus.seed_ids(("fix",)))
     out = []
     for rid in sorted(focus_spec()):
@@ -106,7 +106,7 @@ def pipe_items(tier, kinds_q, kinds_t=None, k1=True, k1_rules=None, big=True, ge
             out += focus_items(tier, tuple(kinds_q) + tuple(k for k in focus_extra if k not in kinds_q), rules=None if focus is True else focus)
     else:
         kt = kinds_t or kinds_q
-        out += universe.one_dev(corpus.small_slice(), kt)
+        out += universe.one_dev(corpus.small_slice(), kinds_q)  # S_q without the length limit; the wider operator list kinds_t is applied on the rule-focused slice
         out += universe.one_dev(corpus.seed_ids(("fix", "cls")), wide_kinds(kinds_q, kt))
         if k1:
             out += configs_k1.items_for_own_fixtures(limit_values=None, rules=k1_rules)
@@ -127,13 +127,13 @@ def bound_text(tier, kinds_q, kinds_t=None, focus_extra=()):
         k = "1 configuration deviation (documented option values, first 2 per option) of each rule on its own fixture"
     else:
         w = wide_kinds(kinds_q, kinds_t or kinds_q)
-        d = ("1 layout deviation: (" + ",".join(kinds_t or kinds_q) + ") at every position of S_q (211 seeds, no length limit)")
+        d = ("1 layout deviation: (" + ",".join(kinds_q) + ") at every position of S_q (211 seeds, no length limit)")
         k = "1 configuration deviation (every documented option value) of each rule on its own fixture"
-    f = ("rule-focused slice F: the same operators" + (" plus " + ",".join(focus_extra) if focus_extra else "") + " on the line(s) each rule reports on in its own fixture (" + ("first reported line" if tier == "quick" else "first two reported lines +-1") + ", " + str(len(focus_spec())) + " rules)")
+    f = ("rule-focused slice F: the operators (" + ",".join(tuple(kinds_q if tier == "quick" else (kinds_t or kinds_q)) + tuple(focus_extra)) + ") on the line(s) each rule reports on in its own fixture (" + ("first reported line" if tier == "quick" else "first two reported lines") + ", " + str(len(focus_spec())) + " rules)")
     return z + "; " + d + "; " + f + "; " + k
 
 
-def k2_items(tier, skip=True, indent=True, case=False):
+def k2_items(tier, skip=True, indent=True, case=False, prereq=False):
     """K2: single deviations of the top-level configuration keys that steer the pipeline itself: skip_phase (each single phase)
     and the documented indent options of use clauses (docs/configuring_use_clause_indenting.rst), on seeds where they matter"""
     from .. import corpus
@@ -144,6 +144,19 @@ def k2_items(tier, skip=True, indent=True, case=False):
         for s in (fixs[::3] if tier == "quick" else fixs):
             for ph in range(1, 7):
                 out.append(universe.mk(s, (), None, {"skip_phase": [ph]}, cfgname=f"skip_phase={ph}"))
+    if prereq:
+        # the prerequisite mechanism of rule_list.fix (docs/phases.rst, rule_list.enforce_prerequisites): each rule that another rule
+        # names as its prerequisite, disabled - the dependent rule must still end up after whatever it has to follow
+        from vsg import rule_list as _rl, vhdlFile as _vf
+        import contextlib, io
+
+        with contextlib.redirect_stdout(io.StringIO()):
+            rl = _rl.rule_list(_vf.vhdlFile([""]), None)
+        pre = sorted({p.unique_id for r in rl.rules if not r.deprecated for p in r.prerequisites})
+        seeds = [s for s in corpus.seed_ids(("fix", "cls", "big")) if any(":=" in l for l in corpus.lines_of(s))]
+        for s in seeds:
+            for p in pre:
+                out.append(universe.mk(s, (), None, {"rule": {p: {"disable": True}}}, cfgname=f"{p}.disable=true"))
     if indent:
         users = [s for s in corpus.seed_ids(("fix", "cls", "big")) if any(l.strip().lower().startswith("use ") for l in corpus.lines_of(s))]
         for s in (users[::2] if tier == "quick" else users):
@@ -155,4 +168,8 @@ def k2_items(tier, skip=True, indent=True, case=False):
                         # configuration deviation x whole-file case deviation (2 deviations): the indent map is consulted with token
                         # values as they stand in the input, the case rules run two phases later
                         out.append(universe.mk(s, (("ALLUP", 0, 0),), None, cfg, cfgname=f"indent.use_clause.{opt}={val}"))
+                        # ... and the library name spelled differently in the library clause and in the use clause
+                        for op in universe.seedinfo(s).ops(("UPI",)):
+                            if corpus.lines_of(s)[op[1]].strip().lower().startswith(("library ", "use ")):
+                                out.append(universe.mk(s, (op,), None, cfg, cfgname=f"indent.use_clause.{opt}={val}"))
     return out
